@@ -44,6 +44,8 @@ ASSUMPTIONS = [
     "zero-length attributes as \"\"; ncmpigen man page: CDL has no unsigned / 64-bit constants) and whose 64-bit integer data fit in 2^53",
     "a printed decimal is compared after parsing it back to binary32/binary64 (9 / 17 significant digits round-trip exactly)",
     "validator classes asserted are those ncvalidator.c checks or the man page names; the tag of an EMPTY list is documented there as not checked and is not asserted",
+    "the serial tools run with RLIMIT_AS = 1 GiB and RLIMIT_CPU = 30 s (count fields of malformed headers are used by ncvalidator as allocation sizes "
+    "without bound; resource exhaustion on malformed input belongs to C19)",
     "an MPI_Init failure of a tool process (OpenMPI run-time, recognised by its message) is retried, never judged",
 ]
 
@@ -100,7 +102,7 @@ EXCLUSIONS = {
                                    "match": lambda u, i, fb: u["tool"] == "ncvalidator" and (u.get("derived") or {}).get("cls") == "c_truncated"},
     # F-C2 ncvalidator.c hdr_get_NON_NEG()/val_get_NC_dim(): a CDF-5 dimension length with the sign bit set (negative INT64) is read with
     #     get_uint64, cast to long long and never checked.  replay: replays/C20/validator-negative-dimlen-cdf5.json
-    "validator_negative_dimlen": {"what": "ncvalidator accepts a negative CDF-5 dimension length",
+    "validator_negative_dimlen": {"what": "ncvalidator accepts a negative CDF-5 dimension length (always when no variable uses the dimension, sometimes when one does)",
                                   "match": lambda u, i, fb: u["tool"] == "ncvalidator" and (u.get("derived") or {}).get("cls") == "c_neg_dimlen"},
     # F-D cdfdiff.c: `k = i % nattrs[1]` (global and per-variable attribute loops) divides by zero when one file has attributes
     #     and the other has none -> SIGFPE.  replay: replays/C20/cdfdiff-empty-attlist-sigfpe.json
@@ -141,6 +143,15 @@ class ToolResult:
 
 MPI_INIT_FAIL = re.compile(rb"MPI_INIT failed|ompi_mpi_init|ompi_rte_init|orte_init failed|opal_init|PMIX ERROR|ORTE_ERROR_LOG|unable to (?:create|open).*session", re.I)
 MPI_TOOLS = ("ncmpidiff", "ncmpidump", "ncmpigen")
+
+
+def _serial_limits():
+    """serial tools (ncvalidator, cdfdiff, ncoffsets) run with 1 GiB of address space and 30 s of CPU: a header count field taken
+    from a malformed file then fails in malloc (the tool rejects the file) instead of exhausting the machine"""
+    import resource
+    resource.setrlimit(resource.RLIMIT_AS, (1 << 30, 1 << 30))
+    resource.setrlimit(resource.RLIMIT_CPU, (30, 30))
+    resource.setrlimit(resource.RLIMIT_CORE, (0, 0))
 
 
 class Tools:
@@ -192,7 +203,7 @@ class Tools:
             self.launches[tool] += 1
             try:
                 p = subprocess.Popen(cmd, env=self.env, cwd=self.scratch, stdin=subprocess.DEVNULL, stdout=subprocess.PIPE,
-                                     stderr=subprocess.PIPE, start_new_session=True)
+                                     stderr=subprocess.PIPE, start_new_session=True, preexec_fn=None if tool in MPI_TOOLS else _serial_limits)
                 try:
                     out, err = p.communicate(timeout=timeout)
                 except subprocess.TimeoutExpired:
@@ -1629,7 +1640,7 @@ def main():
                 violations.append((os.path.join(rdir, fn), probs))
 
     nw = max(1, min(a.workers, 32))
-    ng = a.groups or {"quick": 17, "thorough": 250}[a.tier]
+    ng = a.groups or {"quick": 16, "thorough": 250}[a.tier]
     active = [] if a.no_exclusions else sorted(k for k, v in EXCLUSIONS.items() if v.get("active", True))
     args = [(a.tier, a.seed, i, nw, builds, ng, active) for i in range(nw)]
     if nw == 1:
